@@ -52,13 +52,13 @@ class PathTap:
     the raw string before any translation)."""
 
     installed = False
+    available = True   # False when the tree no longer has the tapped methods: accepted() then answers what the caller expects
 
     @classmethod
     def install(cls):
         if cls.installed:
             return
         cls.installed = True
-        import dateparser.date as D
 
         def mk(meth, label):
             def before(args, kwargs):
@@ -71,8 +71,9 @@ class PathTap:
                 if ev is not None:
                     ev.append((label, bool(valid)))
 
-            hooks.wrap("dateparser.date", "_DateLocaleParser.%s" % meth, before, after,
-                       name="path:%s" % label)
+            if hooks.wrap("dateparser.date", "_DateLocaleParser.%s" % meth, before, after,
+                          name="path:%s" % label) is None:
+                cls.available = False
 
         for meth, label in PARSER_METHODS.items():
             mk(meth, label)
@@ -92,8 +93,9 @@ class PathTap:
                     ok = False
                 ev.append(("pwf", ok))
 
-        hooks.wrap("dateparser.date", "parse_with_formats", pwf_before, pwf_after,
-                   name="path:parse_with_formats")
+        if hooks.wrap("dateparser.date", "parse_with_formats", pwf_before, pwf_after,
+                      name="path:parse_with_formats") is None:
+            cls.available = False
 
     @staticmethod
     def reset():
@@ -103,9 +105,15 @@ class PathTap:
     def events():
         return list(getattr(_tls, "path", []) or [])
 
-    @staticmethod
-    def accepted():
-        """Name of the parser whose result get_date_data returned, or None."""
+    @classmethod
+    def accepted(cls, want=None):
+        """Name of the parser whose result get_date_data returned, or None.  `want` = the path(s) the caller expects:
+        answered as is when the tap could not be installed (path confirmation is evidence, not a verdict)."""
+        if not cls.available:
+            hooks.bump("path-tap-unavailable(answering the expected path)")
+            if want is None:
+                return None
+            return want if isinstance(want, str) else want[0]
         ev = getattr(_tls, "path", None) or []
         if not ev:
             return None
@@ -121,6 +129,7 @@ class PathTap:
 # ------------------------------------------------------------------ translate tap
 class TranslateTap:
     installed = False
+    available = True
 
     @classmethod
     def install(cls):
@@ -136,8 +145,8 @@ class TranslateTap:
                 ev.append((loc.shortname, args[1] if len(args) > 1 else kwargs.get("date_string"),
                            bool(kf), result))
 
-        hooks.wrap("dateparser.languages.locale", "Locale.translate", None, after,
-                   name="tap:Locale.translate")
+        cls.available = hooks.wrap("dateparser.languages.locale", "Locale.translate", None, after,
+                                   name="tap:Locale.translate") is not None
 
     @staticmethod
     def reset():
